@@ -129,6 +129,11 @@ M = [
  ("from_records keeps attributes with an empty key", 'simple-mdns/src/instance_information.rs', "                simple_dns::rdata::RData::TXT(txt) => attributes.extend(\n                    // an empty TXT record is sent as a single empty string, which is not an attribute\n                    txt.attributes().into_iter().filter(|(key, _)| !key.is_empty()),\n                ),", "                simple_dns::rdata::RData::TXT(txt) => attributes.extend(txt.attributes()),", 'fail:from_records_source'),
  ("from_records ignores AAAA records", 'simple-mdns/src/instance_information.rs', "                simple_dns::rdata::RData::AAAA(aaaa) => {\n                    ip_addresses.insert(std::net::Ipv6Addr::from(aaaa.address).into());\n                }\n", "", 'fail:from_records_source'),
  ("from_records takes the priority for the port", 'simple-mdns/src/instance_information.rs', "                    ports.insert(srv.port);", "                    ports.insert(srv.priority);", 'untied:mdns.from_records'),
+ ("SRV records advertised with weight 1", 'simple-mdns/src/conversion_utils.rs', "            weight: 0,", "            weight: 1,", 'fail:into_records_source'),
+ ("AAAA records advertised in class CH", 'simple-mdns/src/conversion_utils.rs', "ResourceRecord::new(name.clone(), CLASS::IN, rr_ttl, RData::AAAA(AAAA::from(ip)))", "ResourceRecord::new(name.clone(), CLASS::CH, rr_ttl, RData::AAAA(AAAA::from(ip)))", 'fail:into_records_source'),
+ ("TXT record first", 'simple-mdns/src/instance_information.rs', "        records.push(hashmap_to_txt(service_name, self.attributes, ttl)?);\n\n        Ok(records)", "        records.insert(0, hashmap_to_txt(service_name, self.attributes, ttl)?);\n\n        Ok(records)", 'untied:mdns.into_records'),
+ ("ports before addresses", 'simple-mdns/src/instance_information.rs', "        for ip_address in self.ip_addresses {\n            records.push(ip_addr_to_resource_record(service_name, ip_address, ttl));\n        }\n\n        for port in self.ports {\n            records.push(port_to_srv_record(service_name, port, ttl));\n        }\n", "        for port in self.ports {\n            records.push(port_to_srv_record(service_name, port, ttl));\n        }\n\n        for ip_address in self.ip_addresses {\n            records.push(ip_addr_to_resource_record(service_name, ip_address, ttl));\n        }\n", 'fail:into_records_source'),
+ ("SRV target is the root", 'simple-mdns/src/conversion_utils.rs', "            target: name.clone(),", "            target: Name::new_unchecked(\"\"),", 'untied:mdns.into_records'),
  ("mdns refresh in millis", 'simple-mdns/src/resource_record_manager.rs', 'added + Duration::from_secs(ttl / 2)', 'added + Duration::from_millis(ttl / 2)', 'untied:mdns.expiration'),
 ]
 
